@@ -38,30 +38,59 @@ ASSUMPTIONS = ['configurations in which agents can die AND a network builds edge
                'sim.run_one_step() with a falsy sim.now (numeric start 0) runs to the end of the plan: modelled as the code does it']
 
 MODES = ['none', 'deepcopy', 'pickle', 'saveload']
+OBSERVERS = ['to_json', 'shrink_copy', 'save_shrunk', 'repr', 'loop_df']
 
 
 # ---------------------------------------------------------------------------
 # configurations
 
+DUR_DISTS = [None, None, ('weibull', 2.0, 4.5), ('gamma', 2.0, 2.0), ('scipy_beta', 2.0, 3.0, 8.0), ('normal', 5.0, 1.0), ('uniform', 1.0, 8.0),
+             ('expon', 4.0), ('lognorm_im', 1.2, 0.4), ('histogram',)]
+
+
+def make_dist(spec):
+    """ A duration distribution of any family, NumPy-backed or SciPy-backed (the latter draw through scipy's frozen dist) """
+    import starsim as ss, scipy.stats as sps
+    k = spec[0]
+    if k == 'weibull': return ss.weibull(c=spec[1], scale=spec[2])
+    if k == 'gamma': return ss.gamma(a=spec[1], scale=spec[2])
+    if k == 'scipy_beta': return ss.Dist(dist=sps.beta, a=spec[1], b=spec[2], scale=spec[3])
+    if k == 'normal': return ss.normal(loc=spec[1], scale=spec[2])
+    if k == 'uniform': return ss.uniform(low=spec[1], high=spec[2])
+    if k == 'expon': return ss.expon(scale=spec[1])
+    if k == 'lognorm_im': return ss.lognorm_im(mean=spec[1], sigma=spec[2])
+    if k == 'histogram': return ss.histogram(values=[1, 3, 2, 1], bins=[1, 2, 4, 6, 9])
+    raise ValueError(spec)
+
+
 def gen_config(rng):
     cfg = impl.gen_sim_config(rng, small=True, allow_global_readers=False)
     cfg['pop_scale'] = rng.choice([None, 2.5, 10.0, 2.5])
-    # C14 finding (ErdosRenyiNet/DiskNet edges from array positions reach removed agents) + Arr.asnew leaving np.empty
-    # memory at removed agents' positions make Infection.infect read uninitialised memory once somebody has died: the
-    # run is then not a function of the sim object at all (two identical copies can diverge).  That is C14/C01's, not
-    # C09's: keep such networks only in configurations where nobody can die.
-    deaths_possible = bool(cfg['demographics']) or any(d.get('p_death') for d in cfg['diseases'])
-    if deaths_possible:
-        for n in cfg['networks']:
-            if n['type'] in ('erdosrenyi', 'disk'):
-                n.clear(); n.update(type='static', n_contacts=rng.choice([2, 4]))
+    # (round 1 excluded ErdosRenyiNet/DiskNet together with deaths: /repo commit d09c6aa builds their edges from UIDs, so no more)
+    if rng.random() < 0.25:
+        extra = rng.choice([dict(type='erdosrenyi', p=0.05), dict(type='disk', r=0.2, v=0.1)])
+        if not any(n['type'] == extra['type'] for n in cfg['networks']):
+            cfg['networks'].append(extra)
     if rng.random() < 0.3 and cfg['unit'] == 'year':
         cfg['disease_dt_ratio'] = rng.choice([0.5, 2.0])
+    # the diseases' duration distributions range over the distribution families (NumPy- and SciPy-backed)
+    cfg['dur_dists'] = [rng.choice(DUR_DISTS) for _ in cfg['diseases']]
     return cfg
 
 
+def fixed_config():
+    """ Always-exercised configuration: SciPy-backed and NumPy-backed duration distributions, two diseases (one on half the
+        sim timestep), random + MF + Erdos-Renyi networks, deaths and disease deaths, pop_scale != 1 """
+    return dict(n_agents=120, rand_seed=4242, unit='year', dt=0.5, start=2000, dur=4.0, pop_scale=2.5, disease_dt_ratio=0.5,
+                diseases=[dict(type='sir', beta=0.3, init_prev=0.2, dur_inf=5, p_death=0.3), dict(type='sis', beta=0.3, init_prev=0.2, dur_inf=5, waning=0.05)],
+                dur_dists=[('weibull', 2.0, 4.5), ('gamma', 2.0, 2.0)],
+                networks=[dict(type='random', n_contacts=4, dur=0), dict(type='mf', duration=3), dict(type='erdosrenyi', p=0.05)],
+                demographics=[dict(type='deaths', death_rate=40)])
+
+
 def build(cfg):
-    """ impl.build_sim plus an optional own timestep for the diseases (copied from impl.build_sim, which has no such option) """
+    """ impl.build_sim plus an optional own timestep / duration distribution for the diseases (copied from impl.build_sim, which
+        has no such options) """
     import starsim as ss
     pars = dict(n_agents=cfg['n_agents'], rand_seed=cfg.get('rand_seed', 1), verbose=0)
     for k in ('unit', 'dt', 'start', 'dur', 'stop', 'pop_scale'):
@@ -71,6 +100,9 @@ def build(cfg):
     if cfg.get('disease_dt_ratio'):
         for d in ds:
             d.t.update(dt=cfg['dt'] * cfg['disease_dt_ratio'], unit=cfg['unit'])
+    for d, spec in zip(ds, cfg.get('dur_dists') or []):
+        if spec is not None:
+            d.pars.dur_inf = make_dist(tuple(spec))
     pars['diseases'] = ds
     pars['networks'] = [impl._network(n, cfg['n_agents']) for n in cfg.get('networks', [])]
     dem = [impl._demog(d) for d in cfg.get('demographics', [])]
@@ -146,6 +178,29 @@ def restore(sim, mode, tmpdir):
     raise ValueError(mode)
 
 
+def observe(sim, kind, tmpdir):
+    """ Read-only uses of a (paused or finished) sim: must leave it exactly as it was """
+    if kind == 'to_json':
+        try:
+            sim.to_json(keys=['pars'] if not sim.results_ready else None)
+        except TypeError:
+            pass        # to_json cannot serialise some parameter objects (e.g. SciPy-backed Dists): not this property's business;
+                        # what matters here is that the attempt leaves the sim as it was
+    elif kind == 'shrink_copy':
+        small = sim.shrink(inplace=False)
+        assert small is not sim
+    elif kind == 'save_shrunk':
+        fn = os.path.join(tmpdir, 'c09_shrunk.sim')
+        sim.save(fn, shrink=True)
+        os.remove(fn)
+    elif kind == 'repr':
+        repr(sim); repr(sim.loop); str(sim.people)
+    elif kind == 'loop_df':
+        sim.loop.to_df()
+    else:
+        raise ValueError(kind)
+
+
 def until_value(sim, spec):
     """ JSON-able stop-time spec -> (python value for sim.run, exact rational for the model) """
     import starsim as ss
@@ -210,8 +265,14 @@ def gen_ops(rng, sim, nplan, nfuncs, n, allow_twin=True, allow_finalize=True):
             # a burst of single functions: deliberately lands inside a step
             k = rng.choice([1, 2, 3, rng.randint(1, max(1, nfuncs)), rng.randint(1, max(1, 2 * nfuncs)), rng.randint(1, max(1, nplan))])
             ops.append(['lstep', int(k)])
-        elif r < 0.92:
+        elif r < 0.84:
             ops.append(['restore', rng.choice(MODES[1:])])
+        elif r < 0.88:
+            # a copy of a copy: restores applied back to back, in either order
+            for mode in rng.sample(MODES[1:], rng.choice([2, 3])):
+                ops.append(['restore', mode])
+        elif r < 0.92:
+            ops.append(['observe', rng.choice(OBSERVERS)])
         elif r < 0.95 and allow_finalize:
             ops.append(['finalize'])
         else:
@@ -232,7 +293,7 @@ def gen_script(rng, sim, nplan, nfuncs):
     tail = [['run', ('none', None)]]
     for _ in range(rng.choice([0, 1, 2, 3])):
         tail.append(rng.choice([['run', ('none', None)], ['finalize'], ['step'], ['lstep', 1], ['restore', rng.choice(MODES)],
-                                ['run', gen_until(rng, sim)]]))
+                                ['run', gen_until(rng, sim)], ['observe', rng.choice(OBSERVERS)]]))
     return dict(ops=ops, twin=twin, tail=tail)
 
 
@@ -261,6 +322,8 @@ def run_ops(sim, ops, tmpdir, lines, obs):
                         lines.append('finalize'); sim.finalize()
                     elif o[0] == 'restore':
                         lines.append(f'restore {o[1]}'); sim = restore(sim, o[1], tmpdir)
+                    elif o[0] == 'observe':
+                        lines.append('observe'); observe(sim, o[1], tmpdir)
                     else:
                         raise ValueError(o)
             except Exception as e:
@@ -387,8 +450,8 @@ def correspond(ctx):
     per = 3
     all_lines = []; index = []
     with tempfile.TemporaryDirectory(prefix='c09_') as tmpdir:
-        for _ in range(nconf):
-            cfg = gen_config(ctx.rng)
+        for ci in range(nconf + 1):
+            cfg = fixed_config() if ci == 0 else gen_config(ctx.rng)
             try:
                 probe = fresh_sim(cfg)
             except Exception as e:
@@ -470,6 +533,84 @@ def oracle_pause(cfg, k, mode, twin, tmpdir, via='lstep'):
     return fails
 
 
+def boundary_points(sim):
+    """ One pause point of every boundary kind: before anything, after the very first function, inside a step (after a
+        module's `step`), right after people.step_die, between two finish_steps, right after sim.finish_step (between
+        steps), before the very last function, after it """
+    labels = list(sim.loop.plan.func_label); names = list(sim.loop.plan.func_name)
+    n = len(labels)
+    pts = {'start': 0, 'after-first': 1, 'before-last': n - 1, 'end': n}
+    mid = n // 3
+    def first_after(pred, lo=mid):
+        for i in range(lo, n):
+            if pred(i): return i + 1
+        return None
+    pts['inside-step'] = first_after(lambda i: names[i] == 'step' and names[i + 1 if i + 1 < n else i] != 'finish_step')
+    pts['after-step_die'] = first_after(lambda i: labels[i] == 'people.step_die')
+    pts['between-finish_steps'] = first_after(lambda i: names[i] == 'finish_step' and i + 1 < n and names[i + 1] == 'finish_step' and not labels[i].startswith('people'))
+    pts['after-sim-finish_step'] = first_after(lambda i: labels[i] == 'sim.finish_step')
+    pts['after-start_step'] = first_after(lambda i: names[i] == 'start_step' and i + 1 < n and names[i + 1] != 'start_step')
+    return {k: v for k, v in pts.items() if v is not None}
+
+
+def oracle_until(cfg, spec):
+    """ run(until=u) must stop right after the FIRST function after which u is truthy and sim.now > u (or at the end),
+        and must not declare the sim complete before the plan is exhausted """
+    fails = []
+    a = fresh_sim(cfg); b = fresh_sim(cfg)
+    val, _ = until_value(a, spec)
+    n = len(a.loop.plan)
+    with warnings.catch_warnings():
+        warnings.simplefilter('ignore')
+        try:
+            a.run(until=val)
+        except Exception as e:
+            return [(dict(oracle='until', what='run-raised'), f'sim.run(until={spec[1]}) raised {type(e).__name__}: {e}')]
+        expect = n
+        for i in range(n):
+            b.loop.run_one_step()
+            if val and b.now > val:
+                expect = i + 1; break
+    if a.loop.index != expect:
+        fails.append((dict(oracle='until', what='stop-point'), f'sim.run(until={spec[1]}) stopped after {a.loop.index} functions; the first function after which sim.now > until is #{expect} of {n}'))
+    if bool(a.complete) != (a.loop.index == n):
+        fails.append((dict(oracle='until', what='complete-flag'), f'after sim.run(until={spec[1]}): complete={a.complete} with {a.loop.index} of {n} functions executed'))
+    return fails
+
+
+def oracle_multisim(cfg, k):
+    """ A paused sim handed to a MultiSim (which copies it): the copy it runs finishes like the uninterrupted run, the base
+        stays paused where it was and can still be finished """
+    import starsim as ss
+    fails = []
+    sim = fresh_sim(cfg)
+    with warnings.catch_warnings():
+        warnings.simplefilter('ignore')
+        for _ in range(k): sim.loop.run_one_step()
+        pre = control(sim)
+        try:
+            ms = ss.MultiSim(sims=[sim], inplace=False, shrink=False, reseed=False)
+            ms.run(parallel=False)
+            copy = ms.sims[0]
+        except Exception as e:
+            return [(dict(oracle='resume', what='multisim-raised'), f'MultiSim of a sim paused after {k} functions raised {type(e).__name__}: {e}')]
+        if copy is sim:
+            return fails
+        if control(sim) != pre:
+            fails.append((dict(oracle='resume', what='copy-moves-original', mode='multisim'), f'running a MultiSim copy of a sim paused after {k} functions changed the base: {pre} -> {control(sim)}'))
+        try:
+            sim.run()
+        except Exception as e:
+            fails.append((dict(oracle='resume', what='resume-raised', mode='multisim'), f'finishing the base sim after a MultiSim run raised {type(e).__name__}: {e}'))
+            return fails
+    ref = reference(cfg)
+    for label, s_ in (('MultiSim copy', copy), ('base', sim)):
+        same, why = impl.arrays_equal(snapshot(s_), ref)
+        if not same:
+            fails.append((dict(oracle='resume', what='final-state-differs', mode='multisim'), f'the {label} of a sim paused after {k} functions finishes different from the uninterrupted run: {why}'))
+    return fails
+
+
 def oracle_guards(cfg):
     """ A completed sim refuses run / finalize and its results do not change """
     import starsim as ss
@@ -510,6 +651,26 @@ def search(ctx):
                         ctx.fail(sig, what, dict(kind='script', cfg=d['cfg'], script=d['script']))
                 except Exception:
                     pass
+        # --- always exercised: every boundary kind x every restore mode on the fixed configuration (SciPy-backed dists,
+        #     two timelines, deaths, Erdos-Renyi), stop times of every kind, a MultiSim copy
+        fx = fixed_config()
+        probe = fresh_sim(fx)
+        pts = boundary_points(probe)
+        for j, (kind, k) in enumerate(sorted(pts.items())):
+            for mode in (MODES[1:] if ctx.thorough else [MODES[1 + (j + ctx.seed) % 3], MODES[1 + (j + ctx.seed + 1) % 3]]):
+                for f_sig, f_what in oracle_pause(fx, k, mode, j % 2 == 0, tmpdir):
+                    ctx.fail(dict(f_sig, boundary=kind), f'[{kind}] ' + f_what, dict(kind='pause', cfg=fx, k=k, mode=mode, twin=j % 2 == 0))
+                ctx.count('boundary_' + kind); ctx.count('oracle_mode_' + mode)
+        tvv = [float(x) for x in probe.t.timevec]
+        for spec in [('num', tvv[2]), ('num', tvv[3] + 0.1), ('num', tvv[0] - 1.0), ('num', tvv[-1]), ('num', tvv[-1] + 3.0), ('num', tvv[-2]), ('num', 5.0), ('num', 0.0)]:
+            for f_sig, f_what in oracle_until(fx, spec):
+                ctx.fail(f_sig, f_what, dict(kind='until', cfg=fx, spec=list(spec)))
+            ctx.count('oracle_until')
+        for f_sig, f_what in oracle_multisim(fx, pts.get('inside-step', 10)):
+            ctx.fail(f_sig, f_what, dict(kind='multisim', cfg=fx, k=pts.get('inside-step', 10)))
+        ctx.count('oracle_multisim')
+        for f_sig, f_what in oracle_guards(fx):
+            ctx.fail(f_sig, f_what, dict(kind='guards', cfg=fx))
         for i in range(nconf):
             cfg = gen_config(ctx.rng)
             if i == 0:
@@ -525,6 +686,11 @@ def search(ctx):
             ks = sorted({ctx.rng.randint(1, nplan - 1), ctx.rng.randint(1, min(nplan - 1, 2 * nf)), ctx.rng.randint(0, nplan)})
             if ctx.thorough and nplan <= 300:
                 ks = list(range(0, nplan + 1, max(1, nplan // 40)))
+            if i < 2:
+                spec = gen_until(ctx.rng, probe)
+                for f_sig, f_what in oracle_until(cfg, spec):
+                    ctx.fail(f_sig, f_what, dict(kind='until', cfg=cfg, spec=list(spec)))
+                ctx.count('oracle_until')
             for k in ks:
                 mode = ctx.rng.choice(MODES[1:]) if not ctx.thorough else MODES[1 + (k % 3)]
                 twin = ctx.rng.random() < 0.5
@@ -540,6 +706,10 @@ def replay(ctx, data):
             fails = oracle_pause(data['cfg'], data['k'], data['mode'], data.get('twin', False), tmpdir)
         elif kind == 'guards':
             fails = oracle_guards(data['cfg'])
+        elif kind == 'until':
+            fails = oracle_until(data['cfg'], tuple(data['spec']))
+        elif kind == 'multisim':
+            fails = oracle_multisim(data['cfg'], data['k'])
         elif kind == 'script':
             ex = execute_script(data['cfg'], data['script'], tmpdir)
             fails = final_diffs(data['cfg'], ex, data['script'])
